@@ -99,6 +99,9 @@ META["rule"] += (
 META["rule"] += (
     " " + 'Added after the third round: 20 % of the random cases use a negative lag, in particular lag = -taumax.')
 
+META["rule"] += (
+    " " + "Added after the fifth round: a quarter of the rescaling relations and a third of the unit changes use factors 2^-40 .. 2^30; taumax = 0 (float and int) through EventSeriesClimateNetwork (120 / 1200 such networks); a Monte-Carlo significance query precedes the analysis matrices on a fifth (ES) / a third (ECA) of the small objects, the caller's event matrix must stay what it was.")
+
 _SAMPLED = {"ES": 0, "ECA": 0}
 
 ES_SETTINGS = [(INF, 0.0), (1.0, 0.0), (2.0, 1.0)]
